@@ -81,6 +81,26 @@ func checkMinSelection(w *core.World, r *core.Report, rule string, fn *ssa.Funct
 	if fn == nil {
 		return 0
 	}
+	// the builtin forms of the selection: acc = min(acc, x) keeps the lower priority, max(...) the higher one
+	for _, c := range core.Calls(fn) {
+		bi, ok := c.Common().Value.(*ssa.Builtin)
+		if !ok || (bi.Name() != "min" && bi.Name() != "max") || c.Value() == nil {
+			continue
+		}
+		// it is a selection when its result feeds an accumulator (a phi of a loop) or is returned
+		feeds := false
+		for _, ref := range *c.Value().Referrers() {
+			switch ref.(type) {
+			case *ssa.Phi, *ssa.Return, *ssa.Store:
+				feeds = true
+			}
+		}
+		if !feeds {
+			continue
+		}
+		n++
+		r.Check(bi.Name() == "min", rule, core.Site(fn, "selection by builtin %s", bi.Name()), w.InstrPos(c), "precedence selection must keep the numerically LOWER priority (builtin "+bi.Name()+")")
+	}
 	for _, iff := range core.Ifs(fn) {
 		v, neg := core.StripNot(iff.Cond)
 		bo, ok := v.(*ssa.BinOp)
